@@ -3879,7 +3879,9 @@ reinit:
         } else if (lg_crcv->etag_set) {
           /* Cannot handle this change in ETag to not being there */
           coap_log_warn("Not all blocks have ETag option\n");
-          goto fail_resp;
+          /* This block cannot be taken as part of (or as) the body */
+          rcvd->code = COAP_RESPONSE_CODE(402);
+          goto expire_lg_crcv;
         }
 
         if (fmt != lg_crcv->content_format) {
